@@ -104,7 +104,9 @@ pub fn diff_model_ext(mem: &mut Memvid, model: &Model, ro: bool, at: &str, allow
             if role_num(fr.role) != f.role {
                 out.push((vec!["C01", "C06"], "frame-role", format!("[{at}] frame {} role {:?}, model {}", f.id, fr.role, f.role)));
             }
-            if fr.parent_id != f.parent {
+            // the parent link of caller-attached child frames (extracted images) is not part of
+            // any listed property; only chunk parentage is predicted
+            if fr.parent_id != f.parent && f.role != 2 {
                 out.push((vec!["C01", "C06"], "frame-parent", format!("[{at}] frame {} parent {:?}, model {:?}", f.id, fr.parent_id, f.parent)));
             }
             if fr.supersedes != f.supersedes || fr.superseded_by != f.superseded_by {
